@@ -9,7 +9,7 @@ import time
 
 VERIF = os.path.dirname(os.path.dirname(os.path.abspath(__file__)))
 REPO = os.environ.get("VERIF_REPO", "/repo")
-BUILD = os.path.join(VERIF, ".build")
+BUILD = os.environ.get("VERIF_BUILD", os.path.join(VERIF, ".build"))
 MASK = (1 << 64) - 1
 
 
